@@ -928,6 +928,18 @@ func genRelayCase(w *wire.World, g *sip.Gen, i int, prop string) *relayCase {
 				}
 				texts = append(texts, routeEntry(g, sv.IP, myPort, "", false).Text)
 				sig = append(sig, "own+next")
+				if prop == "C17" && g.R.Intn(2) == 0 {
+					// the proxy's own entry several times (a spiral, or one entry per leg): each pass
+					// through the proxy consumes exactly one, whatever the layout of the list
+					for k := 1 + g.R.Intn(2); k > 0; k-- {
+						tr := ""
+						if c.path.Proto == "tcp" {
+							tr = "tcp"
+						}
+						texts = append(texts, routeEntry(g, sv.IP, myPort, tr, false).Text)
+					}
+					sig = append(sig, "own-repeated")
+				}
 			}
 			host := hop.IP
 			if g.R.Intn(2) == 0 {
@@ -1007,7 +1019,7 @@ func genRelayCase(w *wire.World, g *sip.Gen, i int, prop string) *relayCase {
 		}
 	}
 	// C01: hostile content
-	if prop == "C01" {
+	if prop == "C01" || prop == "C17" {
 		sig = append(sig, decorateC01(g, m, c))
 	}
 	c.in = m
